@@ -183,6 +183,15 @@ def _convert_elem(e, dt):
     if k in 'iu':
         if isinstance(e, BV):
             return e.cast(dt)
+        if hasattr(e, 't') and not isinstance(e, (R, Z, B)):
+            # binary64 -> sized integer: C truncation toward zero
+            from . import fp
+            t = z3.simplify(e.t)
+            bits = dt.itemsize * 8
+            if z3.is_fp_value(t):
+                v = fp.from_bits(core._pyval(t))
+                return BV(int(v) & ((1 << bits) - 1), dt)
+            return BV(z3.fpToUBV(z3.RTZ(), t, z3.BitVecSort(bits)) if k == 'u' else z3.fpToSBV(z3.RTZ(), t, z3.BitVecSort(bits)), dt)
         if isinstance(e, B):
             e = e.as_int()
         if isinstance(e, R):
@@ -339,6 +348,12 @@ def array(obj, dtype=None, copy=True, ndmin=0, **kw):
             a = a.copy()
         if dt is not None and dt.kind != 'O':
             a = _cast_objarr(a, dt)
+        elif dt is None and not isinstance(obj, _np.ndarray):
+            # numpy.array over Python ints gives an int64 array: remember that on the elements (core.ZA)
+            af = a.reshape(-1)
+            if af.size and all(type(e) is core.Z or (isinstance(e, int) and not isinstance(e, builtins.bool)) for e in af):
+                for i in range(af.size):
+                    af[i] = core.ZA(af[i].v if type(af[i]) is core.Z else int(af[i]))
     else:
         a = _np.array(obj, dtype=dt, copy=copy, **kw) if dt is not None else _np.array(obj, copy=copy, **kw)
         if a.dtype.kind == 'f' and _mode() == 'exact':
